@@ -68,6 +68,15 @@ impl Run {
         self.ops.push(op);
         self.imp.push(imp);
     }
+    /// like `op`, but distinctness is judged on the whole history so far (`ctx` = hash of the prefix)
+    pub fn op_in(&mut self, ctx: &mut u64, op: String, imp: String) {
+        let mut h = std::collections::hash_map::DefaultHasher::new();
+        ctx.hash(&mut h);
+        op.hash(&mut h);
+        *ctx = h.finish();
+        self.nontrivial.insert(*ctx);
+        self.op(op, imp, false);
+    }
     /// an evaluation that has no model line (pure implementation-vs-oracle case)
     pub fn eval(&mut self, key: &str, nontrivial: bool) {
         self.evaluations += 1;
